@@ -805,3 +805,85 @@ def s_squeeze_reshape_anyrank(ctx):
 
 SCENARIOS.append(Scenario("C09.rules.SqueezeReshape[any rank]", s_squeeze_reshape_anyrank,
                           [("onnxscript/rewriter/rules/common/_basic_rules.py", "SqueezeReshape.check"), ("onnxscript/rewriter/_ir_utils.py", "has_rank")], trusted=TRUST))
+
+
+def s_collapse_slice_anyrank(ctx):
+    """_check_if_redundant_slice for data of ANY rank, ANY axis (negative or not) and starts / ends / axes / steps constants of ANY size:
+    True only for constant (non-overridable) one-element operands with start 0 and step 1 whose end covers the whole (static) axis, or
+    is INT64_MAX — then Slice selects the whole axis for every binding (ONNX Slice clamping)."""
+    import onnx_ir as ir
+    from onnxscript.rewriter.rules.common import _collapse_slices as mod
+    from contracts.symshape import SymShape
+    from theories import slicing as T
+    I = Interp(ctx)
+    W = World(I)
+    shape_known = ctx.choose(2, "the shape of data is known") == 0
+    X = SymShape(I, "data")
+    data = W.value("data", dims=None, rt=None, dtype=ir.DataType.FLOAT)
+    data.fields["shape"] = X.obj if shape_known else None
+    vals = {}
+
+    def operand(tag):
+        known = ctx.choose(2, f"{tag} constant") == 0
+        size, first = ctx.int(f"size_{tag}"), ctx.int(f"{tag}_0")
+        ctx.assume(size >= 0)
+        ctx.witness[f"{tag}_0"] = first
+        ctx.witness[f"size_{tag}"] = size
+        ovr = known and ctx.choose(2, f"the {tag} operand is an initializer that is also a graph input") == 1
+
+        class Arr:
+            pass
+        arr = SObj(object, "array_" + tag)
+
+        def item():
+            raise AssertionError
+        I.models[item] = lambda interp, first=first: SInt(first)
+        arr.fields.update(size=SInt(size), item=item)
+        t = SObj(ir.Tensor, "tensor_" + tag)
+
+        def numpy_():
+            raise AssertionError
+        I.models[numpy_] = lambda interp, arr=arr: arr
+        t.fields.update(numpy=numpy_, dtype=ir.DataType.INT64)
+        vals[tag] = (known, size, first, ovr)
+        return W.value(tag, dims=None, rt=None, dtype=ir.DataType.INT64, const=(t if known else None), initializer=known, graph_input=ovr)
+    starts, ends, axes, steps = operand("start"), operand("end"), operand("axis"), operand("step")
+    axis = vals["axis"][2]
+    in_range = z3.And(axis >= -X.rank, axis < X.rank)
+    try:
+        fired = I.truth(I.run_closure(I.closure_of(mod._check_if_redundant_slice), [None, data, starts, ends, axes, steps], {}))
+    except PyRaise:
+        ctx.check("C04.rules.collapse_slice.any_rank.check_raises_only_for_an_axis_outside_the_annotated_rank", z3.And(z3.BoolVal(shape_known), z3.Not(in_range)), CL04)
+        return
+    if not fired:
+        ctx.cover("collapse_slice.any_rank.check_failed")
+        return
+    ctx.cover("collapse_slice.any_rank.fired")
+    CLX = CL09 + " (every rank, every axis, operands of every size)"
+    ctx.check("C05.rules.collapse_slice.any_rank.fires_only_for_constant_one_element_operands",
+              z3.And(*[z3.And(z3.BoolVal(vals[k][0]), vals[k][1] == 1) for k in ("start", "end", "step", "axis")]), CLX)
+    ctx.check("C05.rules.collapse_slice.any_rank.does_not_fire_on_an_overridable_initializer", not any(v[3] for v in vals.values()),
+              "C05 / C04: 'initializers that are also graph inputs ... are never folded into constants'")
+    s, e, st = vals["start"][2], vals["end"][2], vals["step"][2]
+    ctx.check("C05.rules.collapse_slice.any_rank.fires_only_for_start_0_and_step_1", z3.And(s == 0, st == 1), CLX)
+    if shape_known:
+        if not ctx.branch(in_range):
+            ctx.cover("collapse_slice.any_rank: axis outside the rank (not a valid model)")
+            return
+        p = z3.If(axis < 0, -axis - 1, X.rank - 1 - axis)     # position from the right
+        X.facts(p)
+        d = X.rt(p)
+    else:
+        d = ctx.int("extent")
+        ctx.assume(d >= 0)
+    ctx.assume(d <= T.INT64_MAX)   # a tensor extent is an int64
+    first, stop = T.onnx_norm(d, s, e, st)
+    whole = z3.Or(d == 0, z3.And(st == 1, first == 0, stop == d))
+    ctx.check("C09.rules.collapse_slice.any_rank.selects_the_whole_axis_for_every_binding", whole, CLX)
+    ctx.check("C05.rules.collapse_slice.any_rank.selects_the_whole_axis_for_every_binding", whole, CLX)
+
+
+SCENARIOS.append(Scenario("C09.rules.collapse_slice[any rank]", s_collapse_slice_anyrank,
+                          [("onnxscript/rewriter/rules/common/_collapse_slices.py", "_check_if_redundant_slice")],
+                          trusted=TRUST + ["ONNX Slice-13 clamping (theories/slicing.py)", "numpy: .size is the number of elements, .item() of a one-element array is its element"],
+                          assumptions=["a tensor extent is an int64; an axis outside the annotated rank is not a valid model (no obligation)"]))
